@@ -190,3 +190,26 @@ MUTANTS += [
     {"id": "C10-pairing-container-second-layout", "prop": "C10", "expect": "Container<V>asview::View>::render/layout-side:skip",
      "edits": [("src/view/container.rs", _CONT, _CONT.replace("layout.children().next()", "layout.children().skip(1).next()"))]},
 ]
+
+# size_cells: the rounded-up quotient helper is found by data flow from size_cells, not by its name
+_RU = "        fn round_up(a: usize, b: usize) -> usize {\n            let c = a / b;\n            if a % b == 0 { c } else { c + 1 }\n        }\n        Size {\n            height: round_up(self.height(), pixels_per_cell.height),\n            width: round_up(self.width(), pixels_per_cell.width),\n        }\n"
+_RU_FREE = "        let width = cells_to_cover(self.width(), pixels_per_cell.width);\n        let height = cells_to_cover(self.height(), pixels_per_cell.height);\n        Size { height, width }\n"
+_FREE_FN = "fn cells_to_cover(pixels: usize, cell_pixels: usize) -> usize {\n    let whole = pixels / cell_pixels;\n    match pixels % cell_pixels {\n        0 => whole,\n        _ => whole + 1,\n    }\n}\n\nimpl PartialEq for Image {"
+_GUARD = "        if pixels_per_cell.is_empty() || self.size().is_empty() {"
+MUTANTS += [
+    {"id": "C10-benign-round-up-free-fn", "prop": "C10", "benign": True,
+     "edits": [("src/image.rs", _RU, _RU_FREE), ("src/image.rs", "impl PartialEq for Image {", _FREE_FN)]},
+    {"id": "C10-benign-round-up-inlined-div-ceil", "prop": "C10", "benign": True,
+     "edits": [("src/image.rs", _RU, "        Size {\n            height: self.height().div_ceil(pixels_per_cell.height),\n            width: self.width().div_ceil(pixels_per_cell.width),\n        }\n")]},
+    {"id": "C10-benign-round-up-written-out", "prop": "C10", "benign": True,
+     "edits": [("src/image.rs", _RU, "        let (ph, pw) = (pixels_per_cell.height, pixels_per_cell.width);\n        Size {\n            height: self.height() / ph + usize::from(self.height() % ph != 0),\n            width: self.width() / pw + usize::from(self.width() % pw != 0),\n        }\n")]},
+    {"id": "C10-benign-size-cells-component-tests", "prop": "C10", "benign": True,
+     "edits": [("src/image.rs", _GUARD, "        if pixels_per_cell.height == 0 || 0 == pixels_per_cell.width || self.size().is_empty() {")]},
+    {"id": "C10-round-up-free-fn-guard-dropped", "prop": "C10", "expect": "DIV-GUARD",
+     "edits": [("src/image.rs", _RU, _RU_FREE), ("src/image.rs", "impl PartialEq for Image {", _FREE_FN), ("src/image.rs", _GUARD, "        if self.size().is_empty() {")]},
+    {"id": "C10-size-cells-guard-height-only", "prop": "C10", "expect": "DIV-GUARD",
+     "edits": [("src/image.rs", _GUARD, "        if pixels_per_cell.height == 0 || self.size().is_empty() {")]},
+    {"id": "C10-round-up-free-fn-second-unguarded-caller", "prop": "C10", "expect": "DIV-GUARD",
+     "edits": [("src/image.rs", _RU, _RU_FREE), ("src/image.rs", "impl PartialEq for Image {", _FREE_FN),
+               ("src/image.rs", "    /// Size in cells\n    pub fn size_cells(", "    /// Rows of cells\n    pub fn rows_cells(&self, pixels_per_cell: Size) -> usize {\n        cells_to_cover(self.height(), pixels_per_cell.height)\n    }\n\n    /// Size in cells\n    pub fn size_cells(")]},
+]
